@@ -331,7 +331,13 @@ def cmp_(pred, x, y, bits):
         c, a, b = y.args
         if is_c(a) or is_c(b):
             return ite(c, cmp_('eq', a, x, bits), cmp_('eq', b, x, bits), 1)
-    # zext-aware constant compare
+    # remember small bounds that input bytes are compared with: candidate domains for pointer offsets that
+    # depend on a raw input byte (sound: offsets outside the candidates are recorded as an obligation)
+    if pred[0] == 'u':
+        if is_c(y) and not is_c(x) and x.op.startswith('var:') and y <= 32:
+            HINTS[x.id] = max(HINTS.get(x.id, 0), y)
+        elif is_c(x) and not is_c(y) and y.op.startswith('var:') and x <= 32:
+            HINTS[y.id] = max(HINTS.get(y.id, 0), x)
     return mk('cmp:' + pred, 1, (x, y))
 
 
@@ -492,6 +498,13 @@ def concat(h, hb, l, lb):
         return (h << lb) | l
     if is_c(h) and h == 0:
         return zext(l, lb, hb + lb)
+    # re-assembling a value from guarded-constant pieces (a wide cell that was fragmented into bytes by a
+    # join): combine the guards; correlated guards collapse, so the result stays a small guarded-constant set
+    hc, lc = _clsize(h), _clsize(l)
+    if hc and lc and hc * lc <= 64:
+        r = mkcl([((vh << lb) | vl, and_(gh, gl, 1)) for vh, gh in _pairs(h) for vl, gl in _pairs(l)], hb + lb)
+        if is_c(r) or r.cl <= CL_LIMIT:
+            return r
     # adjacent extracts of the same term
     if not is_c(h) and not is_c(l) and h.op == 'extract' and l.op == 'extract' and h.args[0] is l.args[0] \
             and h.args[2] == l.args[1] + 1:
@@ -707,6 +720,7 @@ def _expand_small(x, bits, maxvals):
 # ------------------------------------------------------------------ value-set analysis (sound over-approximation)
 _VS = {}
 VS_LIMIT = 32
+HINTS = {}
 
 
 def _submasks(m):
@@ -750,6 +764,8 @@ def _vs1(e):
     op, bits = e.op, e.bits
     full = frozenset(range(1 << bits)) if (1 << bits) <= VS_LIMIT else None
     if op.startswith('var:'):
+        if full is None and e.id in HINTS:
+            return frozenset(range(HINTS[e.id] + 1))
         return full
     if bits == 1:
         return frozenset((0, 1))
